@@ -8,6 +8,7 @@ import numpy as np
 import pandas as pd
 
 from common import coq_eval, frac, close, qlit, qlist, TOL_ARITH, TOL_FIT
+import est_common as ec
 
 PROP_FILE = 'theories/Properties/C16.v'
 MODEL_FILES = ['theories/Model/Generalize.v']
@@ -170,7 +171,9 @@ def run_est(kind, df, meta, gen, stab, rx, fS=None, fA=None, fQ=None):
     try:
         with IptwSpy() as spy:
             if kind == 'IPSW':
-                e = IPSW(df, exposure='A', outcome='Y', selection='S', generalize=gen)
+                dfc = df.copy()
+                e = IPSW(dfc, exposure='A', outcome='Y', selection='S', generalize=gen)
+                ec.scramble(dfc)          # the caller's own frame changes after construction: the estimator must not care
                 e.sampling_model(fS, stabilized=stab, print_results=False)
                 if rx:
                     e.treatment_model(fA, stabilized=stab, print_results=False)
@@ -197,7 +200,9 @@ def run_est(kind, df, meta, gen, stab, rx, fS=None, fA=None, fQ=None):
                         res['nA'], sp = const(n)
                         res['spread'] = max(res['spread'], sp)
             elif kind == 'GT':
-                e = GTransportFormula(df, exposure='A', outcome='Y', selection='S', outcome_type=otype, generalize=gen)
+                dfc = df.copy()
+                e = GTransportFormula(dfc, exposure='A', outcome='Y', selection='S', outcome_type=otype, generalize=gen)
+                ec.scramble(dfc)
                 e.outcome_model(fQ, print_results=False)
                 e.fit()
                 d1, d0 = df.copy(), df.copy()
@@ -207,7 +212,9 @@ def run_est(kind, df, meta, gen, stab, rx, fS=None, fA=None, fQ=None):
                 res['q0'], sp0 = table(e._outcome_model.predict(d0), K, allm, ns)
                 res['spread'] = max(sp1, sp0)
             else:
-                e = AIPSW(df, exposure='A', outcome='Y', selection='S', generalize=gen)
+                dfc = df.copy()
+                e = AIPSW(dfc, exposure='A', outcome='Y', selection='S', generalize=gen)
+                ec.scramble(dfc)
                 e.sampling_model(fS, stabilized=stab, print_results=False)
                 if rx:
                     e.treatment_model(fA, stabilized=stab, print_results=False)
